@@ -34,8 +34,8 @@ ASSUMPTIONS = ["Migen's simulator (site-packages) defines FHDL semantics",
                "(no 4 KB crossing, WRAP 2/4/8/16 aligned, FIXED <= 16)",
                "known findings excluded by construction (counted as classes): through anything containing AXIDecoder a master keeps "
                "all bursts outstanding in one direction at ONE slave (the decoder routes every channel by the registered select while "
-               "locked); W is presented ahead of its AW only in one-master one-slave topologies (AXIDecoder routes W by the address "
-               "currently on AW, AXIArbiter releases the write grant between a lone W beat and its AW)",
+               "locked); W is presented ahead of its AW only where the decoder has one slave (AXIDecoder routes W by the address "
+               "currently on AW)",
                "no accesses to unmapped addresses and no timeout (C11)"]
 
 # windows: (origin, size), all sizes powers of two >= 4 KB so that a 1 KB area fits at several offsets
@@ -60,8 +60,6 @@ def envelope(case):
     if not case["w_after_aw"]:
         if has_dec and S > 1:
             return "c08:axi-decoder-w-before-aw"
-        if has_arb and M > 1:
-            return "c08:axi-arbiter-w-before-aw"
     if has_dec and S > 1 and case["K"] > 1 and not case.get("one_target", True):
         return "c08:axi-decoder-outstanding"
     return None
@@ -101,7 +99,10 @@ def st_case(tier, kinds=("shared", "shared", "crossbar", "crossbar", "arbiter", 
         # class-determining choices first: Hypothesis completes some examples with the simplest remaining choices
         K = draw(st.sampled_from([1, 1, 1, 2, 2, 4]))
         blk = draw(st.sampled_from([None] * 7 * 5 + ["aw", "w", "b", "ar", "r"])) if block else None
-        w_before = (kind == "p2p" or (M == 1 and S == 1)) and draw(st.booleans())
+        # W ahead of AW: where no decoder sits behind several masters (the decoder routes W by the address currently on AW,
+        # also an idle one); arbiters with any number of masters since the write-data lock was added to AXIArbiter (the
+        # witness of the former finding is replayed)
+        w_before = (kind in ("p2p", "arbiter") or (M == 1 and S == 1)) and draw(st.booleans())
         err = draw(st.integers(0, 2)) == 0
         dw = draw(st.sampled_from([32, 32, 32, 64]))
         idw = draw(st.sampled_from([1, 2, 4]))
